@@ -125,12 +125,15 @@ Definition db_same (a b : list table) : bool :=
   Nat.eqb (length a) (length b)
   && forallb (fun t => match find_by_name (t_name t) b with Some u => table_same t u | None => false end) a.
 
-(** what the implementation did on a load *)
-Inductive obs : Type := ObsOk (db : list table) | ObsErr | ObsPanic.
+(** what the implementation did on a load.  [ObsSaved]: the harness found the reloaded database
+    identical to the one it had saved (same tables, columns and row sequences, floats by bits);
+    the model's result is then compared with the saved database of the case. *)
+Inductive obs : Type := ObsSaved | ObsOk (db : list table) | ObsErr | ObsPanic.
 
-Definition outcome_agrees (m : ores (list table)) (o : obs) : bool :=
+Definition outcome_agrees (saved : list table) (m : ores (list table)) (o : obs) : bool :=
   match m, o with
   | OOk a, ObsOk b => db_same a b
+  | OOk a, ObsSaved => db_same a saved
   | OErr, ObsErr => true
   | OPanic, ObsPanic => true
   | _, _ => false
@@ -138,28 +141,39 @@ Definition outcome_agrees (m : ores (list table)) (o : obs) : bool :=
 
 Definition is_abstain {A} (m : ores A) : bool := match m with OAbstain => true | _ => false end.
 
+(** * Text fingerprints.  Large texts produced by the implementation (the dump file, the pieces
+    returned by [parse_sql_statements]) are compared through a 60-bit polynomial fingerprint
+    computed on both sides: elaborating megabytes of list literals would dominate the run. *)
+Definition hmask : Z := 1152921504606846975.    (* 2^60 - 1 *)
+Definition hstep (h c : Z) : Z := Z.land (65599 * h + c + 1) hmask.
+Definition hash_str (h : Z) (s : str) : Z := fold_left hstep s h.
+Definition hash_strs (l : list str) : Z := fold_left (fun h s => hstep (hash_str h s) 1114112) l 7.
+
 (** * Database cases: a database built through the storage API, saved and reloaded *)
 Record dcase : Type := mk_dcase {
   d_id : Z;
   d_ft : ftab;
   d_generated : str;
   d_db : list table;             (* in the order the implementation listed (and dumped) them *)
-  d_text : str;                  (* the file written by save_sql_dump *)
-  d_split : list str;            (* parse_sql_statements on it *)
+  d_text_hash : Z;               (* fingerprint of the file written by save_sql_dump *)
+  d_split_hash : Z;              (* fingerprint of parse_sql_statements on it *)
   d_obs : obs                    (* load_sql_dump on it *)
 }.
 
 (** the model may abstain only when some string value breaks the splitter *)
 Definition may_abstain (db : list table) : bool := existsb (fun s => negb (str_ok s)) (db_strings db).
 
+(** the splitter and the loader run on the model's own rendering of the file, which check 1 ties
+    to the file the implementation wrote *)
 Definition check_dcase (c : dcase) : list Z :=
   let fl := fl_of (d_ft c) in
   let b := 10 * d_id c in
-  let m := load_sql_dump fl (d_text c) in
-  (if str_eqb (dump_text fl no_interval (d_generated c) (d_db c)) (d_text c) then [] else [b + 1])
-  ++ (if strs_eqb (parse_sql_statements (d_text c)) (d_split c) then [] else [b + 2])
+  let text := dump_text fl no_interval (d_generated c) (d_db c) in
+  let m := load_sql_dump fl text in
+  (if hash_str 7 text =? d_text_hash c then [] else [b + 1])
+  ++ (if hash_strs (parse_sql_statements text) =? d_split_hash c then [] else [b + 2])
   ++ (if is_abstain m then (if may_abstain (d_db c) then [] else [b + 4])
-      else if outcome_agrees m (d_obs c) then [] else [b + 3])
+      else if outcome_agrees (d_db c) m (d_obs c) then [] else [b + 3])
   ++ (if db_ok fl (d_db c) && generated_ok (d_generated c)
       then (match m with OOk a => if db_same a (d_db c) then [] else [b + 5] | _ => [b + 5] end)
       else []).
@@ -169,7 +183,7 @@ Record tcase : Type := mk_tcase {
   t_id : Z;
   t_ft : ftab;
   t_text : str;
-  t_split : list str;
+  t_split_hash : Z;
   t_obs : obs;
   t_must_decide : bool           (* the generator built the text inside the modelled fragment *)
 }.
@@ -178,9 +192,9 @@ Definition check_tcase (c : tcase) : list Z :=
   let fl := fl_of (t_ft c) in
   let b := 10 * t_id c in
   let m := load_sql_dump fl (t_text c) in
-  (if strs_eqb (parse_sql_statements (t_text c)) (t_split c) then [] else [b + 2])
+  (if hash_strs (parse_sql_statements (t_text c)) =? t_split_hash c then [] else [b + 2])
   ++ (if is_abstain m then (if t_must_decide c then [b + 4] else [])
-      else if outcome_agrees m (t_obs c) then [] else [b + 3]).
+      else if outcome_agrees [] m (t_obs c) then [] else [b + 3]).
 
 (** * Lexer cases *)
 Inductive ilex : Type := ILOk (ts : list tok) | ILErr | ILOther.   (* ILOther: tokens the model has no constructor for *)
